@@ -850,8 +850,11 @@ impl<A: Zeroize + NewBytes + ResizableBytes + Lockable<A>> NewLockedFromSlice<A>
     fn from_slice_into_locked(
         src: &[u8],
     ) -> Result<Protected<Self, traits::ReadWrite, traits::Locked>, crate::error::Error> {
-        let mut res = Self::new_bytes().mlock()?;
-        res.resize(src.len(), 0);
+        // size the region first, then lock it, then copy: resizing a locked
+        // region re-locks with expect() and would panic if the lock is refused
+        let mut new = Self::new_bytes();
+        new.resize(src.len(), 0);
+        let mut res = new.mlock()?;
         res.as_mut_slice().copy_from_slice(src);
         Ok(res)
     }
